@@ -123,6 +123,40 @@ def check(ctx):
         # a key built another way (tuple, hash of parts): tuples/hashes of separately hashed parts are unambiguous
         ctx.instance('C17.R2', '%s (no join: structured key)' % fq, 'ok', nontrivial=False)
 
+    # R6: the file contents reach the key unmodified (or through a collision-resistant digest)
+    ctx.rule('C17.R6', 'file contents flow into the key losslessly: read() appended as is, or through hashlib digests / length prefixes only')
+    INJECTIVE_CALLS = ('read', 'bytes', 'bytearray', 'digest', 'hexdigest', 'sha256', 'sha1', 'sha512', 'md5', 'blake2b', 'encode', 'len', 'pack', 'repr', 'str')
+    n6 = 0
+    for n in walk_no_nested(f):
+        if isinstance(n, ast.Call) and isinstance(n.func, ast.Attribute) and n.func.attr == 'read':
+            # climb to the enclosing statement: every call between read() and the statement must be injective
+            n6 += 1
+            p = getattr(n, '_parent', None)
+            bad = None
+            while p is not None and not isinstance(p, ast.stmt):
+                if isinstance(p, ast.Call):
+                    nm = p.func.attr if isinstance(p.func, ast.Attribute) else (p.func.id if isinstance(p.func, ast.Name) else '?')
+                    if nm not in INJECTIVE_CALLS and nm not in flow.MUTATORS:
+                        bad = p
+                if isinstance(p, ast.Subscript):
+                    bad = p
+                p = getattr(p, '_parent', None)
+            # a local holding the contents that is transformed later
+            if bad is None and isinstance(p, ast.Assign) and isinstance(p.targets[0], ast.Name):
+                var = p.targets[0].id
+                for c in walk_no_nested(f):
+                    if isinstance(c, ast.Call) and isinstance(c.func, ast.Attribute) and isinstance(c.func.value, ast.Name) and c.func.value.id == var \
+                            and c.func.attr not in INJECTIVE_CALLS:
+                        bad = c
+            ctx.instance('C17.R6', '%s %s' % (fq, norm_stmt(Model.enclosing_stmt(n))), 'lossless' if bad is None else 'VIOLATION', node=n, file=F)
+            if bad is not None:
+                ctx.violation('C17.R6', F, bad, fq,
+                              'the file contents pass through %s before reaching the cache key: two different files (different comments, string '
+                              'literals, line structure) can share a key and the second compile returns the first file\'s specification'
+                              % ast.unparse(bad)[:80], stmt='lossy key transform')
+    if n6 == 0:
+        raise AnalysisError('C17.R6: no file read found in %s' % fq)
+
     # R3 + R4: the public entry
     entry = None
     for g in m.functions.values():
@@ -219,6 +253,8 @@ MUTANTS = [
         return compile_dict(parse_files(filenames, encoding),""", expect=None),
     dict(name='store under a different key', file=F, old="cache[key] = compiled", new="cache[key[:64]] = compiled", expect='C17.R5'),
 ]
+MUTANTS.append(dict(name='key from whitespace-normalised contents', file=F,
+                    old="key.append(fin.read())", new="key.append(b' '.join(fin.read().split()))", expect='C17.R6'))
 REFACTORS = [
     dict(name='rename local compiled', file=F,
          old="""        cache[key] = compiled
